@@ -183,7 +183,7 @@ class Batch:
                     if tok in by_name and tok not in seen:
                         seen.add(tok)
                         used.append(by_name[tok])
-            ok, failing, log = coqcases.run_cases(f'{name}{k}', 'Graph Reactor ReactorStage', [self.cases[i] for i in idx], extra='\n'.join(head + used), shard=len(idx))
+            ok, failing, log = coqcases.run_cases(f'{name}{k}', 'Graph Reactor ReactorStage ReactorQueue', [self.cases[i] for i in idx], extra='\n'.join(head + used), shard=len(idx))
             return ok, [idx[j] for j in failing], log
         ok_all, failing, logs = True, [], []
         with cf.ThreadPoolExecutor(max_workers=4) as ex:
@@ -1019,6 +1019,126 @@ def corr_loops(ck):
 
 
 # ---------------------------------------------------------------------------------------------------------------------
+# correspondence 6: the one_shot=False queue of Reactor.__call__ (coq/model/ReactorQueue.v), molecules as tokens
+
+QUEUE_TEMPLATES = [
+    # (patterns, products, reactant sets, polymerise_limit)
+    (('[C:1]#[N:2]',), ('[A:1](=[A:2])[O:3][C:4]',), [('N#CCC#N',), ('CC#N', 'CCCC'), ('N#CC', 'CC#N'), ('N#CCC#N', 'N#CC')], 3),
+    (('[C:1]=[O:2]', '[N;D1:3]'), ('[A:1](-[A:2])-[A:3]-[C:7](=[O:8])-[C:9]',), [('CC=O', 'NC'), ('CC=O', 'NC', 'CCCC'), ('O=CC=O', 'NCCN')], 2),
+    (('[C:1](=[O:2])[O;D1:3]', '[N;D1:4][C:5]'), ('[A:1](=[A:2])[A:4][A:5].[A:3]',), [('CC(=O)O', 'NCC'), ('OC(=O)CC(=O)O', 'NCCN'), ('CC(=O)O', 'NC', 'CCCCCC')], 2),
+    (('[C:1][Br:2]', '[O;D1:3][C:4]'), ('[A:1][A:3][A:4]', '[Br-:2]'), [('CCBr', 'OC'), ('BrCCBr', 'OCCO')], 2),
+    (('[C:1][O;D1:2]',), ('[A:1][A:2][C:3]',), [('OCCO',), ('OCC(O)CO', 'C')], 3),
+]
+
+
+def corr_queue(ck):
+    import chython.reactor.reactor as rmod
+    from itertools import permutations
+    from chython import smiles, smarts
+    from chython.containers import ReactionContainer
+    from chython.reactor import Reactor
+    rng = random.Random(f'{ck.seed}:c16queue')
+    batch = Batch()
+
+    def tl(xs):
+        return zl(list(xs))
+    for pats, prods_t, rsets, limit in QUEUE_TEMPLATES:
+        for rs, variant in itertools.product(rsets, range(2 if ck.tier == 'quick' else 6)):
+            rx = Reactor(tuple(smarts(x) for x in pats), tuple(smarts(x) for x in prods_t), one_shot=False, polymerise_limit=limit,
+                         fix_aromatic_rings=False, automorphism_filter=False)
+            ms = [smiles(x) for x in rs]
+            if variant:
+                ms = [corpus.renumber(m, rng) if variant % 2 else sparse_renumber(m, rng) for m in ms]
+            structures = rmod.fix_mapping_overlap(ms)
+            toks = {}
+
+            def tok(m):
+                return toks.setdefault((tuple(m._atoms), str(m)), len(toks) + 1)
+            calls, overlaps = [], []
+            orig_stage, orig_fix = rx._single_stage, rmod.fix_mapping_overlap
+
+            def wstage(chosen, ignored):
+                rec = {'chosen': list(chosen), 'ctoks': [tok(x) for x in chosen], 'ignored': set(ignored), 'out': [], 'otoks': [], 'exc': 'None'}
+                calls.append(rec)
+                try:
+                    for new in orig_stage(chosen, ignored):
+                        rec['out'].append([x.copy() for x in new])
+                        rec['otoks'].append([tok(x) for x in new])
+                        yield new
+                except Exception as e:
+                    rec['exc'] = 'Some ' + exn(e)[4:]
+                    raise
+
+            def wfix(ss):
+                out = orig_fix(ss)
+                overlaps.append(([tok(x) for x in ss], [tok(x) for x in out]))
+                return out
+            rx._single_stage = wstage
+            rmod.fix_mapping_overlap = wfix
+            try:
+                real, e = gen_list(rx(*structures), 400)
+            finally:
+                rmod.fix_mapping_overlap = orig_fix
+                del rx._single_stage
+            if len(real) >= 400:
+                ck.count('queue:skipped (more than 400 reactions)')
+                continue
+            # ordered candidates for the `ignored` list of every call: the initial complements, then every product list minus one
+            idx = list(range(len(structures)))
+            cands = [[structures[i] for i in idx if i not in c] for c in permutations(idx, len(pats))]
+            stage_t, finish_t, key_t, keys = [], [], [], {}
+            seen_f = set()
+            lost = 0
+            for rec in calls:
+                orders = {}
+                for cl in cands:
+                    if {x for m in cl for x in m} == rec['ignored'] and sum(len(m) for m in cl) == len(rec['ignored']):
+                        orders.setdefault(tuple(tok(m) for m in cl), cl)
+                if not orders:
+                    lost += 1
+                    continue
+                for itoks, cl in orders.items():
+                    for new, ntoks in zip(rec['out'], rec['otoks']):
+                        if (tuple(ntoks), itoks) in seen_f:
+                            continue
+                        seen_f.add((tuple(ntoks), itoks))
+                        r = ReactionContainer([x.copy() for x in structures], [x.copy() for x in new] + [x.copy() for x in cl])
+                        if len(new) > 1:
+                            r.contract_ions()
+                        ptoks = [tok(x) for x in r.products]
+                        finish_t.append(tup(tup(tl(ntoks), tl(itoks)), tl(ptoks)))
+                        key_t.append(tup(tl(ptoks), zraw(keys.setdefault(str(r), len(keys)))))
+                        prods = list(r.products)
+                        for i in range(len(prods)):
+                            cands.append(prods[:i] + prods[i + 1:])
+                some = next(iter(orders))
+                stage_t.append(tup(tup(tl(rec['ctoks']), tl(sorted(some))), tup(lst([tl(x) for x in rec['otoks']]), rec['exc'])))
+            if lost:
+                ck.count('queue:calls whose ignored list could not be reconstructed', lost)
+                continue
+            operm_t = [tup(tl(i), lst([tl(p) for p in permutations(o, len(pats))])) for i, o in overlaps[1:]]
+            yields = lst([tl([tok(x) for x in r.products]) for r in real])
+            nprod = len(rx._products_atoms)
+            batch.add(f'exh_eqb (exhaustive Z Z Z.eqb (fun ch ign => tab2 {lst(stage_t)} ch (zsort ign) ([], None)) (fun nw ign => tab2 {lst(finish_t)} nw ign []) '
+                      f'(fun p => tab1 {lst(key_t)} p (-1)) (fun ms => tab1 {lst(operm_t)} ms []) {len(pats)}%nat {nprod}%nat {limit}%nat {tl([tok(m) for m in structures])} 3000%nat) ({yields}, {e})',
+                      {'kind': 'Reactor.__call__ one_shot=False', 'patterns': pats, 'products': prods_t, 'reactants': rs, 'limit': limit,
+                       'stage_calls': len(calls), 'yielded': len(real), 'molecules': len(toks)})
+            ck.count('queue:' + ('raises' if e != 'None' else 'several generations' if len(calls) > len(list(permutations(idx, len(pats)))) else 'first generation only'))
+            ck.case(('queue', pats, rs, variant), nontrivial=len(real) > 0)
+            if len({str(r) for r in real}) != len(real):
+                ck.counterexample(f'queue-duplicates:{pats}:{rs}', 'Reactor(one_shot=False) yields the same reaction twice', {'patterns': pats, 'products': prods_t, 'reactants': rs},
+                                  sorted(str(r) for r in real), 'pairwise different reactions', 'string comparison')
+    ok, failing, log = batch.run('c16q', chunk=10)
+    ck.oblige('correspondence: Reactor.__call__(one_shot=False) == Coq ReactorQueue.exhaustive (order and products of every yielded reaction; '
+              'stages, r.products, str(r) and fix_mapping_overlap recorded from the real call as tables over molecule tokens)',
+              ok and not failing, 'correspondence', log or str([batch.meta[i] for i in failing[:5]]))
+    ck.extra['queue_cases'] = len(batch.cases)
+    if not ok or failing:
+        ck.unchecked('correspondence ReactorQueue vs chython/reactor/reactor.py:Reactor.__call__ (one_shot=False)', log[-1500:], [repr(batch.meta[i]) for i in failing[:20]])
+    return ok and not failing
+
+
+# ---------------------------------------------------------------------------------------------------------------------
 # search: property-level oracles on the real code, independent of the model
 
 def search_deleted_exhaustive(ck):
@@ -1539,6 +1659,7 @@ def run(ck):
     tied = timed('corr overlap', corr_overlap) and tied
     tied = timed('corr single_stage remap', corr_stage) and tied
     tied = timed('corr loops', corr_loops) and tied
+    tied = timed('corr queue', corr_queue) and tied
     timed('search get_deleted 5-atom graphs', search_deleted_exhaustive)
     timed('search templates', search_templates)
     timed('search identity', search_identity)
